@@ -287,6 +287,21 @@ func (ps *PairShuffle) Verify(
 		return err
 	}
 
+	// The simple k-shuffle must be the one on R_i = A_i + lambda*B_i and
+	// S_i = C_i + lambda*D_i (Neff's step 6). Without this binding the embedded
+	// proof can be about unrelated vectors and nothing ties sigma and D to a
+	// permutation: proofs for outputs that add up or scale ciphertexts verified.
+	if len(ps.pv6.p0.X) != k || len(ps.pv6.p0.Y) != k {
+		return errors.New("invalid PairShuffleProof")
+	}
+	for i := range k {
+		R := grp.Point().Add(p1.A[i], grp.Point().Mul(v4.Zlambda, B[i]))
+		S := grp.Point().Add(p1.C[i], grp.Point().Mul(v4.Zlambda, p3.D[i]))
+		if !R.Equal(ps.pv6.p0.X[i]) || !S.Equal(ps.pv6.p0.Y[i]) {
+			return errors.New("invalid PairShuffleProof")
+		}
+	}
+
 	// V step 7
 	Phi1 := grp.Point().Null()
 	Phi2 := grp.Point().Null()
